@@ -148,3 +148,60 @@ pub proof fn lemma_c15_reassemble(h: V1Header)
         assert(s =~= b_proxy() + sp() + p + sp() + t + b_crlf());
     }
 }
+
+/// what `Display for v1::Addresses` prints (the impl itself is checked bounded by the Kani
+/// harnesses `fmt_*`; core::fmt is outside Verus)
+pub open spec fn v1_display(a: V1Addresses) -> Seq<u8> {
+    match a {
+        V1Addresses::Unknown => b_proxy() + sp() + b_unknown() + b_crlf(),
+        V1Addresses::Tcp4(x) => tcp4_line(display_ipv4(x.source_address), display_ipv4(x.destination_address),
+                                          display_u16(x.source_port), display_u16(x.destination_port)),
+        V1Addresses::Tcp6(x) => tcp6_line(display_ipv6(x.source_address), display_ipv6(x.destination_address),
+                                          display_u16(x.source_port), display_u16(x.destination_port)),
+    }
+}
+
+// [props: C08]
+/// the canonical line of every address value is a well-formed line of at most 107 bytes (104 for
+/// TCP6) that the text entry point accepts with exactly that value; hence distinct values never
+/// share a line
+pub proof fn lemma_c08_roundtrip(a: V1Addresses)
+    ensures
+        v1_display(a).len() <= 107,
+        wf_line(v1_display(a), a),
+        line_verdict(v1_display(a)) == V1V::Accept(a),
+{
+    broadcast use crate::prelude::prelude_display_axioms;
+    let l = v1_display(a);
+    match a {
+        V1Addresses::Unknown => {
+            assert(unknown_line(l));
+            lemma_unknown_line_accepted(l);
+        },
+        V1Addresses::Tcp4(x) => {
+            let (sa, da, spt, dpt) = (display_ipv4(x.source_address), display_ipv4(x.destination_address), display_u16(x.source_port), display_u16(x.destination_port));
+            assert(port_ok(spt) && port_ok(dpt));
+            assert(ipv4_text(sa) == Some(x.source_address) && ipv4_text(da) == Some(x.destination_address));
+            assert(l.len() == 5 + 1 + 4 + 1 + sa.len() + 1 + da.len() + 1 + spt.len() + 1 + dpt.len() + 2);
+            assert(wf_tcp4(l, x));
+            lemma_wf_tcp4_accepted(l, x);
+        },
+        V1Addresses::Tcp6(x) => {
+            let (sa, da, spt, dpt) = (display_ipv6(x.source_address), display_ipv6(x.destination_address), display_u16(x.source_port), display_u16(x.destination_port));
+            assert(port_ok(spt) && port_ok(dpt));
+            assert(ipv6_text(sa) == Some(x.source_address) && ipv6_text(da) == Some(x.destination_address));
+            assert(l.len() == 5 + 1 + 4 + 1 + sa.len() + 1 + da.len() + 1 + spt.len() + 1 + dpt.len() + 2);
+            assert(wf_tcp6(l, x));
+            lemma_wf_tcp6_accepted(l, x);
+        },
+    }
+}
+
+// [props: C08]
+pub proof fn lemma_c08_injective(a: V1Addresses, b: V1Addresses)
+    requires v1_display(a) == v1_display(b)
+    ensures a == b
+{
+    lemma_c08_roundtrip(a);
+    lemma_c08_roundtrip(b);
+}
